@@ -20,7 +20,7 @@ fn small() -> f32 {
     i as f32
 }
 
-// @unit class=bounded tier=thorough mem=light bound="rows=2,features=2,values integer in [-8;8]" timeout=900 fns=linfa_linear::ols::FittedLinearRegression::predict_inplace,linfa_linear::ols::FittedLinearRegression::default_target
+// @unit class=bounded tier=thorough mem=light bound="rows=2,features=2,small ints" timeout=900 fns=linfa_linear::ols::FittedLinearRegression::predict_inplace,linfa_linear::ols::FittedLinearRegression::default_target
 #[kani::proof]
 #[kani::unwind(6)]
 #[kani::stub(alloc::fmt::format, fmt_stub)]
